@@ -198,6 +198,9 @@ Section Chain.
   Lemma prefix_app a b : String.prefix a (a ++ b) = true.
   Proof. induction a as [|c a IH]; cbn; [destruct b; reflexivity|]. destruct (ascii_dec c c); [exact IH|congruence]. Qed.
 
+  Lemma chain_star_first c s : star_first var c T s = false.
+  Proof. unfold star_first, T, chain_sub_tables. cbn [t_mstar]. apply andb_false_r. Qed.
+
   Theorem chain_value_matched fuel e v log :
     is_value v ->
     sw_loop (S (S (S fuel))) var false tabs e T [2] (pre ++ v) 0 0 log
@@ -215,8 +218,10 @@ Section Chain.
       + rewrite length_append. lia.
       + apply chain_first_enabled. now split.
       + apply orb_true_r.
+      + apply chain_star_first.
     - cbn [sdrop]. apply prefix_app.
     - rewrite length_append. lia.
+    - apply chain_star_first.
   Qed.
 
   Lemma sw_fuel_ge3 word : (2 <= String.length word)%nat -> exists f, sw_fuel T word = S (S (S f)).
@@ -359,6 +364,7 @@ Section Chain.
                Hvar Hpw chain_mlit0 chain_state0_unique chain_pre_in (assocN_single_same ipre 1)).
     2:{ cbn [sdrop]. apply prefix_app. }
     2:{ rewrite length_append. pose proof (length_pos pre pre_nonempty). lia. }
+    2:{ apply chain_star_first. }
     cbn [Nat.add].
     destruct (fixed_partial_stops var f tabs e T [] (pre ++ p) 1 st1 (String.length pre) log
                 Hvar Hpw chain_sorted chain_mlit1) as [m Hm].
